@@ -67,10 +67,21 @@ class FlowGen(object):
 
     def bump(self):
         v = self.r.choice(VARS)
-        return ("let", ("var", v), ("bin", "+", ("var", v), n(self.r.randint(1, 2))), False)
+        # the increment is sometimes spelled with a decimal point (1.5, .5, 2.): the last token of an arm then stands
+        # directly before ELSE, where 'E' must not be taken for an exponent
+        inc = n(self.r.randint(1, 2)) if self.r.random() < 0.6 else self.r.choice([("num", 1.5, ["1.5"]), ("num", 0.5, [".5"]), ("num", 2.0, ["2."])])
+        return ("let", ("var", v), ("bin", "+", ("var", v), inc), False)
+
+    def dotted_mark(self):
+        self.mid += 1
+        lit = self.r.choice([("num", 1.5, ["1.5"]), ("num", 0.5, [".5"]), ("num", 2.0, ["2."]), ("num", 10.25, ["10.25"])])
+        return ("print", [("e", ("str", "m%d" % self.mid)), ("sep", ";"), ("e", lit)], None)
 
     def simple(self):
-        return [self.mark()] if self.r.random() < 0.7 else [self.mark(), self.bump()]
+        x = self.r.random()
+        if x < 0.12:
+            return [self.dotted_mark()]
+        return [self.mark()] if x < 0.7 else [self.mark(), self.bump()]
 
     def arm_stmts(self, depth, need_else=False):
         r = self.r
@@ -405,6 +416,12 @@ def run_case(case):
     obs["counters"]["source_steps"] = r["steps"]
     probs = [p for p in r["problems"] if p[0] not in ("refused", "internal")]
     obs["counters"]["refused_or_internal"] = len(r["problems"]) - len(probs)
+    ref = [p for p in r["problems"] if p[0] in ("refused", "internal")]
+    if ref:
+        # the program is in the fragment (the Color BASIC reference ran it to its end): there must BE an emitted program
+        obs["viols"].append({"sig": "C02/valid-program-%s/%s" % (ref[0][0], ref[0][2]),
+                             "detail": {"source": r["text"][:1500], "options": ref[0][1], "exception": ref[0][2], "valuation": val}})
+        return obs
     if probs:
         kind, o, info = probs[0]
         detail = {"source": r["text"][:1500], "kind": kind, "options": o, "info": info, "valuation": val,
